@@ -61,17 +61,17 @@ class StubDeploymentManager:
 class Req:
     """HardwareRequirement stub: eval(job) -> Hardware with the harness-chosen amounts."""
 
-    def __init__(self, cores, memory, disk, mount):
-        self.cores, self.memory, self.disk, self.mount = cores, memory, disk, mount
+    def __init__(self, cores, memory, disk, mount, disk2=None):
+        self.cores, self.memory, self.disk, self.mount, self.disk2 = cores, memory, disk, mount, disk2
 
     def eval(self, job):
         from streamflow.core.scheduling import Hardware, Storage
 
-        return Hardware(
-            cores=self.cores,
-            memory=self.memory,
-            storage={"__outdir__": Storage(mount_point=self.mount, size=self.disk, paths={self.mount})},
-        )
+        storage = {"__outdir__": Storage(mount_point=self.mount, size=self.disk, paths={self.mount})}
+        if self.disk2 is not None:
+            # a second storage entry on the SAME mount point (CWL: outdir and tmpdir on one volume)
+            storage["__tmpdir__"] = Storage(mount_point=self.mount, size=self.disk2, paths={self.mount})
+        return Hardware(cores=self.cores, memory=self.memory, storage=storage)
 
 
 class World:
@@ -146,6 +146,7 @@ class World:
         self.mount = mount
         # harness-side knowledge
         self.reqs = {}  # job -> (c, m, d)
+        self.split = {}  # job -> size of a second storage entry on the same mount point (part of d)
         self.binding = {}  # job -> tuple of deployment names (declared target order)
         self.tasks = {}  # job -> pending/finished schedule task
         self.usage_log = {}  # location -> total MiB measured at releases
@@ -240,8 +241,10 @@ class World:
 
         if op == "S":
             c, m, d = self.reqs[j]
+            d2 = self.split.get(j)
             job = Job(name=j, workflow_id=1, inputs={}, input_directory=None, output_directory=None, tmp_directory=None)
-            self.tasks[j] = self.loop.create_task(self.sched.schedule(job, self.mk_binding(self.binding[j]), Req(c, m, d, self.mount)))
+            req = Req(c, m, d, self.mount) if d2 is None else Req(c, m, d - d2, self.mount, disk2=d2)
+            self.tasks[j] = self.loop.create_task(self.sched.schedule(job, self.mk_binding(self.binding[j]), req))
         else:
             st = {"R": Status.RUNNING, "C": Status.COMPLETED, "F": Status.FAILED, "K": Status.CANCELLED, "V": Status.RECOVERY, "B": Status.ROLLBACK}[op]
             self.loop.run_until_complete(self.sched.notify_status(j, st))
@@ -324,7 +327,7 @@ class World:
         return True
 
 
-def run_history(topo, caps, reqs, bindings, prefix_status, ops, oracle, slots=None, usage=0, drain=True):
+def run_history(topo, caps, reqs, bindings, prefix_status, ops, oracle, slots=None, usage=0, drain=True, split=None):
     """reqs: list of (c,m,d) per job; bindings: per job tuple of deployments;
     prefix_status: per job designated status (concrete); ops: list of symbolic op codes
     (j * len(OPS) + k); oracle in {"capacity", "accounting", "starvation"}."""
@@ -335,6 +338,11 @@ def run_history(topo, caps, reqs, bindings, prefix_status, ops, oracle, slots=No
             for j, r, b in zip(jobs, reqs, bindings):
                 w.reqs[j] = r
                 w.binding[j] = b
+            if split is not None:
+                # split[i]: part of job i's disk requirement that is declared as a second storage entry
+                for j, r, d2 in zip(jobs, reqs, split):
+                    w.reqs[j] = (r[0], r[1], r[2] + d2)
+                    w.split[j] = d2
 
             def check():
                 if oracle == "capacity":
